@@ -180,6 +180,33 @@ def r4(run, db):
                 roots = deep_origins(db, f, info["disc_place"])
                 good = bool(roots) and all(r["k"] in ("arg", "upvar") for r in roots)
                 run.check(good, "deadline-switch:%s" % f.id.replace("ractor::rpc::", ""), "the deadline/no-deadline decision tests the caller's timeout parameter", "the decision tests a derived value: %s" % [(r["k"], r["call"].name if r["k"] == "call" else "") for r in roots], f.where(t.get("l")))
+    # an *unbounded* wait for the reply (a plain `rx.await`) happens only when the caller asked for no deadline: the await, or the
+    # creation of the task that performs it, lies on the None edge of a test of the caller's Option<Duration>
+    def none_edges(g):
+        out = []
+        for site, t in g.switches():
+            info = g.switch_info(site)
+            if info.get("kind") == "enum" and info.get("disc_ty", "").startswith("std::option::Option<") and "Duration" in info.get("disc_ty", "") and "None" in info["edges"]:
+                if info["edges"]["None"] != info["edges"].get("Some"):
+                    out.append((site.bb, info["edges"]["None"]))
+        return out
+    npl = 0
+    for f in waiting_bodies(db):
+        if f.kind != "coroutine":
+            continue
+        for a in awaits(f):
+            if not a.poll.matches(r"oneshot::Receiver<T> as .*Future>::poll$"):
+                continue
+            npl += 1
+            good = any(f.edge_dominates(e, a.poll.site) for e in none_edges(f))
+            if not good:
+                for par, csite in enclosing_chain(db, f)[1:]:
+                    if any(par.edge_dominates(e, csite) for e in none_edges(par)):
+                        good = True
+                        break
+            run.check(good, "unbounded-wait-only-without-deadline:%s" % f.id.replace("ractor::rpc::", ""), "the plain wait for the reply is reachable only when the caller's timeout is None",
+                      "a reply is awaited without the caller's deadline although a timeout may have been requested (e.g. one shared timer instead of a deadline per callee)", a.poll.where())
+    run.anchor("unbounded reply waits", npl, 1)
     # port From impls keep the duration
     m = 0
     for f in db.crate_fns("ractor"):
